@@ -70,15 +70,17 @@ type Scenario struct {
 }
 
 type Result struct {
-	Scenario  Scenario       `json:"scenario"`
-	Events    []sched.Event  `json:"events"`
-	Choices   []string       `json:"choices"`
-	Truncated bool           `json:"truncated,omitempty"`
-	Warnings  []string       `json:"warnings,omitempty"`
-	BlockedI  []int          `json:"blocked_insts"`
-	BlockedT  []int          `json:"blocked_threads"`
-	NameOf    map[int]string `json:"inst_names"`
-	Crashed   string         `json:"crashed,omitempty"`
+	Scenario   Scenario       `json:"scenario"`
+	Events     []sched.Event  `json:"events"`
+	Choices    []string       `json:"choices"`
+	Truncated  bool           `json:"truncated,omitempty"`
+	Warnings   []string       `json:"warnings,omitempty"`
+	BlockedI   []int          `json:"blocked_insts"`
+	BlockedT   []int          `json:"blocked_threads"`
+	NameOf     map[int]string `json:"inst_names"`
+	Crashed    string         `json:"crashed,omitempty"`
+	Quiescent  bool           `json:"quiescent,omitempty"` // the scheduler found nothing enabled any more
+	AliveAtEnd []string       `json:"alive_at_end,omitempty"`
 }
 
 // ------------------------------------------------------------------------------------------ project
@@ -403,11 +405,12 @@ func runScenario(sc *Scenario, maxSteps int) *Result {
 				}
 			}
 			if a == nil {
-				res.Warnings = append(res.Warnings, "replay choice not enabled: "+want)
-				res.Truncated = true
-				break
+				// the recorded schedule no longer fits (the code changed): continue with seeded random choices
+				res.Warnings = append(res.Warnings, "replay choice not enabled: "+want+" (continuing randomly)")
+				r.replay = nil
 			}
-		} else {
+		}
+		if a == nil {
 			tot := 0
 			for _, x := range acts {
 				tot += x.w
@@ -426,6 +429,40 @@ func runScenario(sc *Scenario, maxSteps int) *Result {
 	}
 	// what is still unfinished at quiescence
 	res.Events = s.Snapshot()
+	if !res.Truncated {
+		spawned, gone := map[int]bool{}, map[int]bool{}
+		begun, returned := map[int]bool{}, map[int]bool{}
+		for _, e := range res.Events {
+			switch e.Label {
+			case "spawn":
+				spawned[e.Inst] = true
+			case "inst_gone":
+				gone[e.Inst] = true
+			case "api_begin", "api_begin_np":
+				begun[argInt(e.Args[0])] = true
+			case "api_return":
+				returned[argInt(e.Args[0])] = true
+			}
+		}
+		for i := range spawned {
+			if !gone[i] {
+				res.BlockedI = append(res.BlockedI, i)
+			}
+		}
+		for c := range begun {
+			if !returned[c] {
+				res.BlockedT = append(res.BlockedT, c)
+			}
+		}
+		sort.Ints(res.BlockedI)
+		sort.Ints(res.BlockedT)
+		for _, c := range s.F.All() {
+			if c.Alive() {
+				res.AliveAtEnd = append(res.AliveAtEnd, c.Name)
+			}
+		}
+		res.Quiescent = true
+	}
 	res.Choices = r.choices
 	res.Warnings = append(res.Warnings, s.Warnings...)
 	res.NameOf = map[int]string{}
@@ -869,6 +906,7 @@ func main() {
 	sb.WriteString("Definition r_windows := Eval vm_compute in window_codes cases.\nPrint r_windows.\n")
 	for _, p := range []string{"C01", "C02", "C03", "C04", "C05", "C08", "C09", "C12"} {
 		fmt.Fprintf(&sb, "Definition r_bad_%s := Eval vm_compute in bad_%s cases.\nPrint r_bad_%s.\n", p, p, p)
+		fmt.Fprintf(&sb, "Definition r_badw_%s := Eval vm_compute in badw_%s cases.\nPrint r_badw_%s.\n", p, p, p)
 	}
 	if err := os.WriteFile(filepath.Join(*out, "cases_SUP.v"), []byte(sb.String()), 0o644); err != nil {
 		panic(err)
